@@ -9,7 +9,12 @@
    [json_roundtrip] / [key_roundtrip] (identity on in-range literals whose strings are
    valid UTF-8, [jsafe]).  [wt env v]: v is a well-typed value of the universe;
    [safe v]: every string literal in v is valid UTF-8 (the carve-out of finding F-C12c);
-   [≅]: deep equality with nil and empty containers identified; [dyn_ty]: reflect.TypeOf. *)
+   [defs_ok reg v]: the defined container types (type T []E, map, array) of v itself and of
+   the values directly held by interface positions inside v are registered (the carve-out of
+   finding F-C12g; in a typed field / element an unregistered one is fine, behind a pointer
+   the encoder refuses it); [fixed]: the current code, [v0] / [without_x]: the code before
+   the repairs; [≅]: deep equality with nil and empty containers identified;
+   [dyn_ty]: reflect.TypeOf.  The universe covers arrays and defined container types. *)
 From Coq Require Import List Bool Arith NArith ZArith String Ascii.
 From Eino Require Import Base.Util Base.Universe Model.Ser Model.SerCheckpoint
      Proofs.Ser Proofs.SerLoud Proofs.SerTop Proofs.SerRefl.
@@ -27,7 +32,7 @@ Theorem enc_dec_roundtrip :
          (registry_names_unique : NoDup (map fst reg))
          (field_names_unique : forall n ds, struct_fields env n = Some ds -> NoDup (map fst ds)),
   forall v oi,
-    wt env v = true -> is_iface (ty_of v) = false -> safe v ->
+    wt env v = true -> is_iface (ty_of v) = false -> safe v -> defs_ok reg v ->
     marshal J JK jenc kenc fixed reg v = Ok oi ->
     exists v', unmarshal J JK jdec kdec fixed reg env oi = Ok v' /\ v' ≅ v /\ dyn_ty v' = dyn_ty v.
 Proof. exact enc_dec_roundtrip_lemma. Qed.
@@ -46,7 +51,7 @@ Theorem position_roundtrip :
          (registry_names_unique : NoDup (map fst reg))
          (field_names_unique : forall n ds, struct_fields env n = Some ds -> NoDup (map fst ds)),
   forall v oi,
-    wt env v = true -> safe v ->
+    wt env v = true -> safe v -> Forall (fun t => rm_lookup reg t <> None) (boxed_defs v) ->
     enc_at J JK jenc kenc fixed reg 0 v = Ok oi ->
     exists v', hole J JK env (dec J JK jdec kdec fixed reg env) (ty_of v) oi = Ok v' /\
                v' ≅ v /\ ty_of v' = ty_of v.
@@ -65,6 +70,15 @@ Theorem unsupported_fails_loudly :
     exists e, enc_at J JK jenc kenc fx reg pn v = Err e.
 Proof. exact unsupported_err. Qed.
 Print Assumptions unsupported_fails_loudly.
+
+(* 2b. ... and so does a non-nil pointer to a value of an unregistered defined container type
+       (which no position could take back, F-C12i) *)
+Theorem ptr_to_unregistered_defined_container_fails_loudly :
+  forall (J JK : Type) (jenc : base -> lit -> res J) (kenc : base -> lit -> res JK) (reg : registry) d w pn,
+    rm_lookup reg (TDef d (ty_of w)) = None ->
+    enc_at J JK jenc kenc fixed reg (S pn) (VDef d w) = Err E_UNKNOWN_TYPE.
+Proof. intros. now apply ptr_to_unregistered_def_err. Qed.
+Print Assumptions ptr_to_unregistered_defined_container_fails_loudly.
 
 Theorem encoder_never_panics :
   forall (J JK : Type) (jenc : base -> lit -> res J) (kenc : base -> lit -> res JK)
@@ -88,7 +102,7 @@ Theorem supported_roundtrips :
          (field_names_unique : forall n ds, struct_fields env n = Some ds -> NoDup (map fst ds)),
   forall v,
     wt env v = true -> is_iface (ty_of v) = false -> safe v ->
-    registered reg v -> encodable J JK jenc kenc v ->
+    registered reg v -> defs_registered reg v -> encodable J JK jenc kenc v ->
     exists oi v', marshal J JK jenc kenc fixed reg v = Ok oi /\
                   unmarshal J JK jdec kdec fixed reg env oi = Ok v' /\
                   v' ≅ v /\ dyn_ty v' = dyn_ty v.
@@ -99,7 +113,7 @@ Print Assumptions supported_roundtrips.
       implementation (JSON layer: [jenc_c] …) satisfies the hypotheses above. *)
 Theorem enc_dec_roundtrip_model_instance : forall reg env v oi,
   str_nodup (map fst reg) = true -> env_names_ok env = true ->
-  wt env v = true -> is_iface (ty_of v) = false -> safe v ->
+  wt env v = true -> is_iface (ty_of v) = false -> safe v -> defs_ok reg v ->
   enc_c fixed reg v = Ok oi ->
   exists v', dec_c fixed reg env oi = Ok v' /\ v' ≅ v /\ dyn_ty v' = dyn_ty v.
 Proof. exact roundtrip_instance_lemma. Qed.
@@ -120,7 +134,7 @@ Theorem checkpoint_roundtrip :
          (registry_names_unique : NoDup (map fst (ckpt_reg ureg)))
          (field_names_unique : forall n ds, struct_fields (ckpt_senv uenv) n = Some ds -> NoDup (map fst ds)),
   forall cp oi,
-    has_type (ckpt_senv uenv) cp t_checkpoint_ptr = true -> safe cp ->
+    has_type (ckpt_senv uenv) cp t_checkpoint_ptr = true -> safe cp -> defs_ok (ckpt_reg ureg) cp ->
     marshal J JK jenc kenc fixed (ckpt_reg ureg) cp = Ok oi ->
     exists cp', unmarshal J JK jdec kdec fixed (ckpt_reg ureg) (ckpt_senv uenv) oi = Ok cp' /\
                 cp' ≅ cp /\ ty_of cp' = t_checkpoint_ptr.
@@ -150,6 +164,42 @@ Theorem invalid_utf8_refuted :
 Proof. exact invalid_utf8_refuted. Qed.
 Print Assumptions invalid_utf8_refuted.
 
+(* 7. Round 2 repairs (F-C12e arrays, F-C12f registered defined containers, F-C12i pointer to
+      an unregistered defined container): the code without the repair fails on the witness,
+      the current code handles it. *)
+Theorem array_field_v0_refuted :
+  wt w_e_env w_e = true /\ safe w_e /\ defs_ok w_a_reg w_e /\
+  (exists oi, enc_c without_e w_a_reg w_e = Ok oi /\ dec_c without_e w_a_reg w_e_env oi = Panic) /\
+  (exists oi, enc_c fixed w_a_reg w_e = Ok oi /\ dec_c fixed w_a_reg w_e_env oi = Ok w_e).
+Proof. exact array_field_panicked_before_e. Qed.
+Theorem array_top_level_v0_refuted :
+  wt [] w_e2 = true /\
+  (exists oi v', enc_c without_e builtin_registry w_e2 = Ok oi /\
+                 dec_c without_e builtin_registry [] oi = Ok v' /\ dyn_ty v' <> dyn_ty w_e2) /\
+  (exists oi, enc_c fixed builtin_registry w_e2 = Ok oi /\ dec_c fixed builtin_registry [] oi = Ok w_e2).
+Proof. exact array_retyped_before_e. Qed.
+Theorem registered_defined_container_v0_refuted :
+  wt [] w_f = true /\ defs_ok w_f_reg w_f /\
+  (exists oi v', enc_c without_f w_f_reg w_f = Ok oi /\
+                 dec_c without_f w_f_reg [] oi = Ok v' /\ dyn_ty v' <> dyn_ty w_f) /\
+  (exists oi, enc_c fixed w_f_reg w_f = Ok oi /\ dec_c fixed w_f_reg [] oi = Ok w_f).
+Proof. exact defined_container_retyped_before_f. Qed.
+Theorem ptr_to_unregistered_defined_container_v0_refuted :
+  wt w_i_env w_i = true /\ safe w_i /\ defs_ok w_a_reg w_i /\
+  (exists oi, enc_c without_i w_a_reg w_i = Ok oi /\ dec_c without_i w_a_reg w_i_env oi = Panic) /\
+  enc_c fixed w_a_reg w_i = Err E_UNKNOWN_TYPE.
+Proof. exact ptr_to_unregistered_def_panicked_before_i. Qed.
+(* F-C12g, not repaired: the hypothesis [defs_ok] cannot be dropped (at top level, in an interface) *)
+Theorem unregistered_defined_container_refuted :
+  wt [] w_g = true /\ safe w_g /\ ~ defs_ok builtin_registry w_g /\
+  (exists oi v', enc_c fixed builtin_registry w_g = Ok oi /\
+                 dec_c fixed builtin_registry [] oi = Ok v' /\ dyn_ty v' <> dyn_ty w_g) /\
+  wt [] w_g2 = true /\ safe w_g2 /\ ~ defs_ok builtin_registry w_g2 /\
+  (exists oi v', enc_c fixed builtin_registry w_g2 = Ok oi /\
+                 dec_c fixed builtin_registry [] oi = Ok v' /\ ~ v' ≅ w_g2).
+Proof. exact unregistered_def_refuted. Qed.
+Print Assumptions unregistered_defined_container_refuted.
+
 (* ------------------------------------------------------------------ non-vacuity *)
 (* (each side condition is decided by a closed boolean computation; see Proofs/SerRefl.v) *)
 (* the hypotheses of 1, 3, 4 and 5 hold together for a checkpoint with a DAG channel, a
@@ -171,6 +221,26 @@ Example checkpoint_sample_registered : registered (ckpt_reg []) sample_checkpoin
 Proof. apply registeredb_registered. vm_compute. reflexivity. Qed.
 Example checkpoint_sample_encodable : encodable lit lit jenc_c kenc_c sample_checkpoint.
 Proof. apply encodableb_c_encodable. vm_compute. reflexivity. Qed.
+Example checkpoint_sample_defs_ok : defs_ok (ckpt_reg []) sample_checkpoint.
+Proof. apply defs_okb_ok. vm_compute. reflexivity. Qed.
+Example checkpoint_sample_defs_registered : defs_registered (ckpt_reg []) sample_checkpoint.
+Proof. apply defs_registeredb_ok. vm_compute. reflexivity. Qed.
+(* a value with an array, a registered defined slice in an interface and an unregistered
+   defined map in a typed field satisfies the hypotheses of 1 and is accepted *)
+Example extended_universe_nonvacuous :
+  let reg := (w_f_reg ++ [("s0"%string, TStruct 0)])%list in
+  let env := [(0%N, [("A"%string, TArray 2 t_int); ("I"%string, TAny); ("M"%string, TDef 2 t_umap)])] in
+  let v := VStruct 0 [("A"%string, VArray t_int [vint 1; vint 2]);
+                      ("I"%string, VIface TAny (Some w_f));
+                      ("M"%string, VDef 2 (VMap (TBase BString) t_int None))] in
+  wt env v = true /\ safe v /\ defs_ok reg v /\ ~ defs_registered reg v /\
+  is_ok (do oi <- enc_c fixed reg v; dec_c fixed reg env oi) = true.
+Proof.
+  cbv zeta. split; [vm_compute; reflexivity|]. split; [apply safeb_safe; vm_compute; reflexivity|].
+  split; [apply defs_okb_ok; vm_compute; reflexivity|]. split; [|vm_compute; reflexivity].
+  intro H. unfold defs_registered in H. simpl in H. inversion H as [|? ? _ H2]; subst.
+  inversion H2 as [|? ? H3 _]; subst. now apply H3.
+Qed.
 (* the hypotheses of 2: a registered struct holding a slice of an unregistered named type *)
 Example unsupported_nonvacuous :
   let v := VStruct 0 [("F"%string, VSlice (TNamed 8 BInt) None)] in
